@@ -286,11 +286,14 @@ theorem prefix_recovers_c03 (cfg cfg' : Cfg) (hp : cfg.prune = none) (ops : List
 `apply`): push the node's commit list through ffldb's write path — every commit taking
 the cache or the flush path, explicit flushes in between (`evs`, any interleaving whose
 commits are the node's log) — and let a crash strike between ANY two I/O micro-steps.
-The image on disk is `replay` of the first `d.nDisk` commits. -/
+The image on disk is `replay` of the first `d.nDisk` commits, and the block data of
+at least those commits had been fsynced before (`nDisk ≤ nSynced`): a power loss that
+drops everything not fsynced (the `sync` crash images of the harness) loses nothing the
+image refers to. -/
 theorem crash_image_prefix (A : UtxoAlg) (evs : List (BV.C05.DEvent (Commit A)))
     (d : BV.C05.DState (Image A) (Commit A))
     (hc : BV.C05.CrashAt apply (BV.C05.init (Image.empty A)) evs d) :
-    d.nDisk ≤ (BV.C05.commitsOf evs).length ∧
+    d.nDisk ≤ d.nSynced ∧ d.nDisk ≤ (BV.C05.commitsOf evs).length ∧
     BV.C05.crashImage d = replay (Image.empty A) ((BV.C05.commitsOf evs).take d.nDisk) :=
   crash_image_is_prefix evs d hc
 
@@ -310,7 +313,7 @@ theorem crash_recovers_composed (cfg cfg' : Cfg) (hp : cfg.prune = none) (ops : 
       rn.tip ∈ activeTips ((runOps cfg nd0 ops).log.take d.nDisk) ∧
       rn.utxo.set = BV.C03.Spec.utxoOf (rn.tip.reverse.map toBlock) ∧
       (∀ n, n ∈ rowKeys ((runOps cfg nd0 ops).log.take d.nDisk) → n ∈ keys rn.index) := by
-  obtain ⟨_, himg⟩ := crash_image_is_prefix evs d hc
+  obtain ⟨_, _, himg⟩ := crash_image_is_prefix evs d hc
   rw [himg, hev]
   exact recovered_is_c03_fold cfg cfg' hp ops nd0 h0 d.nDisk
 
